@@ -518,7 +518,7 @@ def _cases(f: FuncInfo) -> Dict[str, Set[str]]:
     cur: Optional[ast.If] = head
     while cur is not None:
         types = sorted({ch[-1] for n in ast.walk(cur.test) for ch in [attr_chain(n)]
-                        if ch and ch[0] == "DataType"})
+                        if ch and len(ch) == 2 and ch[0] == "DataType"})
         key = "|".join(types)
         encs: Set[str] = set()
         for x in [y for s in cur.body for y in walk_no_nested(s)]:
